@@ -590,6 +590,8 @@ func isNonNeg(v ssa.Value) bool {
 		if t.Op == token.MUL && fieldNonNeg(t) {
 			return true
 		}
+	case *ssa.Parameter:
+		return paramNonNeg(t)
 	case *ssa.BinOp:
 		if t.Op == token.ADD || t.Op == token.MUL {
 			return isNonNeg(t.X) && isNonNeg(t.Y)
@@ -675,6 +677,43 @@ func fieldNonNeg(ld *ssa.UnOp) bool {
 		fieldInv[v] = 2
 	}
 	return holds
+}
+
+// paramNonNeg: an integer parameter of an unexported function to which every call site in the module passes a
+// non-negative value (a constant, a length ...).
+var paramNN = map[*ssa.Parameter]int{}
+
+func paramNonNeg(p *ssa.Parameter) bool {
+	switch paramNN[p] {
+	case 1:
+		return true
+	case 2:
+		return false
+	}
+	bp := fieldInvProver
+	f := p.Parent()
+	paramNN[p] = 2
+	if bp == nil || f == nil || (f.Object() != nil && f.Object().Exported()) {
+		return false
+	}
+	idx := -1
+	for i, q := range f.Params {
+		if q == p {
+			idx = i
+		}
+	}
+	calls := bp.callers[f]
+	if idx < 0 || len(calls) == 0 {
+		return false
+	}
+	for _, ci := range calls {
+		cc := ci.Common()
+		if cc.IsInvoke() || cc.StaticCallee() != f || idx >= len(cc.Args) || !isNonNeg(cc.Args[idx]) {
+			return false
+		}
+	}
+	paramNN[p] = 1
+	return true
 }
 
 // ---- sites ----
@@ -915,6 +954,7 @@ func newBoundsProver(c *Ctx, e *aliasEngine, scope map[*ssa.Function]bool) *boun
 		theModOracle = newModOracle(c)
 	}
 	fieldInv = map[*types.Var]int{}
+	paramNN = map[*ssa.Parameter]int{}
 	bp := &boundsProver{c: c, e: e, post: map[*ssa.Function]map[int]int{}, callers: map[*ssa.Function][]ssa.CallInstruction{}, inPre: map[*ssa.Function]bool{}}
 	fieldInvProver = bp
 	for _, f := range e.fns {
@@ -1257,6 +1297,69 @@ func (bp *boundsProver) factsAtPoint(f *ssa.Function, blk *ssa.BasicBlock, extra
 		}
 		for _, v := range bp.goalValues {
 			findPhis(v, 0)
+		}
+		// the other counters of the same loop headers
+		for _, p := range append([]*ssa.Phi{}, counters...) {
+			for _, in := range p.Block().Instrs {
+				q, ok := in.(*ssa.Phi)
+				if !ok {
+					break
+				}
+				if bt, ok := q.Type().Underlying().(*types.Basic); ok && bt.Info()&types.IsInteger != 0 && !seenPhi[q] {
+					seenPhi[q] = true
+					counters = append(counters, q)
+				}
+			}
+		}
+		// two counters that advance by the same loop-invariant value on the same way round keep their distance:
+		// p1 - p2 = init1 - init2 (for i := n, p := 0; ...; p, i = p+n, i+n)
+		symStep := func(p *ssa.Phi) (init, stepV ssa.Value, back int, ok bool) {
+			if len(p.Edges) != 2 {
+				return nil, nil, 0, false
+			}
+			for bi := 0; bi < 2; bi++ {
+				b, isB := p.Edges[bi].(*ssa.BinOp)
+				if !isB || b.Op != token.ADD || b.X != ssa.Value(p) {
+					continue
+				}
+				// the step is defined outside the loop: a parameter, a constant, or a value whose block dominates the header
+				okStep := false
+				switch sv := b.Y.(type) {
+				case *ssa.Parameter, *ssa.Const:
+					okStep = true
+				case ssa.Instruction:
+					okStep = sv.Block() != p.Block() && sv.Block().Dominates(p.Block())
+				}
+				other := p.Edges[1-bi]
+				if !okStep || other == ssa.Value(p) {
+					continue
+				}
+				if oi, isIn := other.(ssa.Instruction); isIn && !(oi.Block() != p.Block() && oi.Block().Dominates(p.Block())) {
+					continue
+				}
+				return other, b.Y, bi, true
+			}
+			return nil, nil, 0, false
+		}
+		for i := 0; i < len(counters); i++ {
+			for j := i + 1; j < len(counters); j++ {
+				p1, p2 := counters[i], counters[j]
+				if p1.Block() != p2.Block() {
+					continue
+				}
+				i1, s1, b1, ok1 := symStep(p1)
+				i2, s2, b2, ok2 := symStep(p2)
+				if !ok1 || !ok2 || s1 != s2 || b1 != b2 {
+					continue
+				}
+				ad1, _ := p1.Edges[b1].(*ssa.BinOp)
+				ad2, _ := p2.Edges[b2].(*ssa.BinOp)
+				if ad1 == nil || ad2 == nil || ad1.Block() != ad2.Block() {
+					continue
+				}
+				lf := env.lin(p1).add(env.lin(p2), -1).add(env.lin(i1), -1).add(env.lin(i2), 1)
+				out = append(out, linFact{lf: lf, why: "counters in step"}, linFact{lf: newLin().add(lf, -1), why: "counters in step"})
+			}
 		}
 		step := func(p *ssa.Phi) (init, k int64, ok bool) {
 			haveInit, haveStep := false, false
